@@ -131,7 +131,7 @@ func marshalValue(t reflect.Type, fi *fieldInfo, v reflect.Value) (string, error
 	if err != nil {
 		return "", err
 	}
-	if fi.Opts.Length > 0 && len(s) != fi.Opts.Length {
+	if fi.Opts.HasLength && len(s) != fi.Opts.Length {
 		return "", &UnsupportedValueError{
 			Value:  v,
 			Struct: t.String(),
